@@ -12,6 +12,8 @@ type Emitter struct {
 	R    *common.Run
 	Prop string
 	N    int
+
+	noted bool
 }
 
 // Do executes one case on the real code, records the protocol line with the observed
@@ -30,6 +32,13 @@ func (e *Emitter) Do(cs Case, class string) Result {
 }
 
 func (e *Emitter) do(cs Case, class string) Result {
+	if Aborted() {
+		if !e.noted {
+			e.noted = true
+			e.R.Notes = append(e.R.Notes, "a run of the library did not end although nothing blocked it (reported as a stall): the remaining cases were skipped")
+		}
+		return Result{Outcome: "SKIPPED"}
+	}
 	res := Exec(cs)
 	line := cs.Line(res)
 	e.R.Line(line, res.Obs(cs.Cfg))
@@ -389,7 +398,13 @@ func Run(r *common.Run) error {
 	Enumerate(e, 29)
 	n := r.Pick(4000, 60000)
 	for i := 0; i < n; i++ {
-		e.Do(RandomCase(r.Rnd, false), "random")
+		cs := RandomCase(r.Rnd, false)
+		// a fifth of the runs hand the library a plain io.ReadWriter instead of a net.Conn
+		// (another newConn path; nothing of C01 may depend on the transport)
+		if r.Rnd.Chance(1, 5) {
+			cs.Raw = true
+		}
+		e.Do(cs, "random")
 	}
 	r.Notes = append(r.Notes, fmt.Sprintf("%d negotiation runs of the real NewSession/ReceiveSession", e.N))
 	return nil
